@@ -20,7 +20,7 @@ def run(ctx):
         ctx.violation("pivotL-correspondence:" + ",".join(d.get("fields", [d["kind"]])),
                       "correspondence p?gstrf_pivotL <-> Model/Pivot.lean (theorems Slu.pivot_*) no longer checks: %s" % (d.get("fields") or d["kind"]), d, no_input=True)
     # (b) oracle on whole factorizations
-    n_cases, nmax = (700, 48) if ctx.quick() else (15000, 160)
+    n_cases, nmax = (700, 48) if ctx.quick() else (5000, 110)
     recs = S.sweep(ctx, n_cases, nmax, precs="dszc", drivers=("gssv", "gssvx", "gssvx"))
     bad = S.judge(ctx, recs, ["wfL", "wfU", "permr", "permc", "lower", "upper", "lu", "mult", "diag"], "LU-identity")
     # (c) whole-factorization correspondence with the exact rational model (discrete outputs, margin rule)
